@@ -4196,6 +4196,8 @@ list_sysfsnode(struct hwloc_topology *topology,
     hwloc_bitmap_free(nodeset);
     return NULL;
   }
+  /* several entries may denote the same index ("node1", "node01"), count the nodes, not the entries */
+  nbnodes = (unsigned) hwloc_bitmap_weight(nodeset);
 
   /* we don't know if sysfs returns nodes in order, we can't merge above and below loops */
 
